@@ -171,7 +171,76 @@ fn channels_per_key_scripts() {
             break; // shortest failing scripts first
         }
     }
-    println!("VERIF-BOUNDED channels_per_key evaluations={scripts} bound=events<={max_len},keys=2,n in 1..=2");
+    // Longer histories than the exhaustive part reaches: close notifications pile up while keys are closed and re-opened.
+    // (a) a structured family: one channel of each key admitted and dropped, then c cycles of "key 1 arrives, is admitted,
+    //     is dropped" with a poll only at each arrival, then one arrival that stays, p catch-up polls, and two more arrivals;
+    // (b) a fixed pseudo-random sample of scripts of 10..=18 events (LCG with a fixed seed; arrive : poll : drop = 3 : 4 : 3).
+    let long_before = scripts;
+    if failures.is_empty() {
+        for first_other in [false, true] {
+            for c in 0..=3usize {
+                for p in 0..=2usize {
+                    let mut script = vec![];
+                    if first_other {
+                        script.extend([Ev::Arrive(0), Ev::Poll]);
+                    }
+                    script.extend([Ev::Arrive(1), Ev::Poll]);
+                    script.extend(std::iter::repeat(Ev::Drop(0)).take(if first_other { 2 } else { 1 }));
+                    for _ in 0..c {
+                        script.extend([Ev::Arrive(1), Ev::Poll, Ev::Drop(0)]);
+                    }
+                    script.extend([Ev::Arrive(1), Ev::Poll]);
+                    script.extend(std::iter::repeat(Ev::Poll).take(p));
+                    script.extend([Ev::Arrive(1), Ev::Poll, Ev::Arrive(1), Ev::Poll]);
+                    for n in [1u32, 2] {
+                        scripts += 1;
+                        if let Err(e) = run(n, &script) {
+                            if failures.len() < 3 {
+                                failures.push(e);
+                            }
+                        }
+                    }
+                }
+            }
+        }
+        let mut state: u64 = 0x5DEECE66D;
+        let mut next = |m: u64| {
+            state = state.wrapping_mul(6364136223846793005).wrapping_add(1442695040888963407);
+            (state >> 33) % m
+        };
+        let samples = bound(20_000, 200_000);
+        for _ in 0..samples {
+            let len = 10 + next(9) as usize;
+            let mut script = vec![];
+            let mut polls = 0usize;
+            let mut drops = 0usize;
+            while script.len() + 1 < len {
+                match next(10) {
+                    0..=2 => script.push(Ev::Arrive(next(2) as usize)),
+                    3..=6 => {
+                        script.push(Ev::Poll);
+                        polls += 1;
+                    }
+                    _ => {
+                        if drops < polls {
+                            script.push(Ev::Drop(0.max(next(3) as usize).min(polls - drops - 1)));
+                            drops += 1;
+                        }
+                    }
+                }
+            }
+            script.push(Ev::Poll);
+            for n in [1u32, 2] {
+                scripts += 1;
+                if let Err(e) = run(n, &script) {
+                    if failures.len() < 3 {
+                        failures.push(e);
+                    }
+                }
+            }
+        }
+    }
+    println!("VERIF-BOUNDED channels_per_key evaluations={scripts} bound=events<={max_len},keys=2,n in 1..=2 exhaustive; plus {} longer scripts (close-and-reopen churn family; fixed pseudo-random sample of 10..=18 events)", scripts - long_before);
     for f in &failures {
         println!("VERIF-FAIL C13 {f}");
     }
